@@ -100,6 +100,13 @@ pub fn run(key: &str, a: &[String], out: &mut Out) {
 // generators
 
 const SAFE_NAMES: [&str; 14] = ["a", "b", "x_0", "v_1+{14}", "tru", "truee", "falsey", "True", "é", "变量", "a.b", "x'", "0", "a,b"];
+/// legal variable names that look like the constants or like operators spelled out: they must parse as
+/// `Variable` with exactly that name (only the exact lowercase `true` / `false` are constants)
+pub const KEYWORDISH: [&str; 40] = ["True", "TRUE", "tRuE", "truE", "False", "FALSE", "fAlSe", "falsE", "truex", "xtrue", "true_", "_true",
+    "nottrue", "truetrue", "true1", "1true", "falsex", "xfalse", "false_", "notfalse", "truefalse", "tru", "rue", "fals", "alse",
+    "t", "f", "T", "F", "1", "not", "and", "or", "xor", "imp", "iff", "ite", "if", "null", "ＴＲＵＥ"];
+/// token alphabet of the second exhaustive token stream (keyword-like identifiers among operators)
+const TOKENS2: [&str; 12] = ["True", "FALSE", "truex", "xtrue", "true", "false", "!", "&", "?", ":", "(", ")"];
 const UNSAFE_NAMES: [&str; 12] = ["", "true", "false", "a b", "a&b", "(a)", "a\u{a0}b", "!a", "a?", "x:y", "a=>b", "\t"];
 
 /// all trees with exactly `size` nodes over the given leaves, for size = 1..=max
@@ -194,6 +201,26 @@ pub fn gen(tier: Tier, rng: &mut Rng64, out: &mut Out) {
             run("C14.tok", &[enc(&render(&ids))], out);
         }
     }
+    // --- all strings of <= 4 (quick) / 5 (thorough) tokens over the keyword-like alphabet
+    for len in 1..=(if thorough { 5u32 } else { 4u32 }) {
+        let total = 12usize.pow(len);
+        for j in 0..total {
+            let mut toks = vec![];
+            let mut div = total / 12;
+            for _ in 0..len { toks.push(TOKENS2[(j / div.max(1)) % 12]); div /= 12; }
+            run("C14.tok", &[enc(&toks.join(" "))], out);
+        }
+    }
+    // --- keyword-like identifiers at character level: alone, negated, grouped, glued to operators, in every operand position
+    for k in KEYWORDISH {
+        for pat in ["{}", " {} ", "!{}", "({})", "!({})", "{}&{}", "a&{}", "{}|true", "true^{}", "{}=>false", "{}<=>{}", "{} ? {} : {}",
+                    "a ? {} : false", "{}{}", "{} {}", "{}!", "{}(", "(a & {}) | !{}"] {
+            run("C14.chr", &[enc(&pat.replace("{}", k))], out);
+        }
+        run("C14.rt", &[sexp(&Variable(s(k)))], out);
+        run("C14.rt", &[sexp(&And(Box::new(Variable(s(k))), Box::new(Not(Box::new(Variable(s(k)))))))], out);
+        run("C14.rt", &[sexp(&Cond(Box::new(Variable(s(k))), Box::new(Const(true)), Box::new(Variable(s(k)))))], out);
+    }
     // --- longer ones in batches of 14^3 completions per line: length 5 (quick), 5..7 (thorough).
     // Lengths 6 and 7 are interleaved with the random stream below so that the heavy lines are spread
     // evenly over the shards of the driver.
@@ -235,8 +262,8 @@ pub fn gen(tier: Tier, rng: &mut Rng64, out: &mut Out) {
             run("C14.chr", &[enc(&pat.replace("{}", &c.to_string()))], out);
         }
     }
-    // --- round trip: all trees up to size 5 (quick) / 6 (thorough) over two names and the constants
-    let leaves = vec![Variable(s("a")), Variable(s("b")), Const(true), Const(false)];
+    // --- round trip: all trees up to size 5 (quick) / 6 (thorough) over the names a, b, True, FALSE and the constants
+    let leaves = vec![Variable(s("a")), Variable(s("b")), Variable(s("True")), Variable(s("FALSE")), Const(true), Const(false)];
     let all = build_trees(if thorough { 6 } else { 5 }, &leaves);
     for sz in 1..all.len() { for e in &all[sz] { run("C14.rt", &[sexp(e)], out); } }
     // --- random trees to depth 8 over parser-safe names; and the same trees printed loosely, then mutated
@@ -244,9 +271,9 @@ pub fn gen(tier: Tier, rng: &mut Rng64, out: &mut Out) {
     for i in 0..rounds {
         if i % 3 == 0 { if let Some(p) = pending.pop() { run("C14.tokb", &[p, s("3")], out); } }
         let depth = 1 + (i % 8) as usize;
-        let e = random_tree(rng, depth, &SAFE_NAMES);
+        let e = if i % 2 == 0 { random_tree(rng, depth, &SAFE_NAMES) } else { random_tree(rng, depth, &KEYWORDISH) };
         run("C14.rt", &[sexp(&e)], out);
-        let e2 = random_tree(rng, depth.min(6), &["a", "b", "c", "x_1", "é"]);
+        let e2 = random_tree(rng, depth.min(6), &["a", "b", "c", "x_1", "é", "True", "FALSE", "truex", "xtrue", "tRuE"]);
         let mut o = String::new();
         let mut d = 0usize;
         loose_print(rng, &e2, 6, &mut d, &mut o);
